@@ -133,6 +133,7 @@ type env struct {
 	cons    *consumer
 	writers []*writer
 	closed  bool
+	started bool
 	peerNoRead bool // odd-numbered peer links never read what the node writes
 	peerAPHeartbeats bool // peers also send ArduPilot heartbeats from fresh identities
 }
@@ -211,7 +212,23 @@ func (e *env) startNode() error {
 	if err != nil {
 		dsim.Record("init-error", err.Error(), nil)
 	}
+	e.mu.Lock()
+	e.started = true
+	e.mu.Unlock()
 	return err
+}
+
+// waitStarted parks the caller until Initialize has returned (peers of server endpoints).
+func (e *env) waitStarted() {
+	for {
+		e.mu.Lock()
+		ok := e.started
+		e.mu.Unlock()
+		if ok {
+			return
+		}
+		dsim.Sleep(time.Millisecond)
+	}
 }
 
 func (e *env) epIndex(conf gomavlib.EndpointConf) int {
